@@ -177,11 +177,15 @@ func (g *gen) participants(s *crypto.Scheme, n int) []*pdkg.Participant {
 
 // dbState builds a DKG database record in the given status.
 func (g *gen) dbState(s *crypto.Scheme, st dkg.Status, withFinal bool) *dkg.DBState {
+	return g.dbStateN(s, st, withFinal, 10)
+}
+
+func (g *gen) dbStateN(s *crypto.Scheme, st dkg.Status, withFinal bool, maxNodes int) *dkg.DBState {
 	id := ids[g.r.Intn(len(ids))]
 	if id == "" {
 		id = "default"
 	}
-	nj, nr := g.r.Intn(4), g.r.Intn(5)
+	nj, nr := g.r.Intn(3), g.r.Intn(3)
 	d := &dkg.DBState{
 		BeaconID: id, Epoch: uint32(1 + g.r.Intn(50)), State: st, Threshold: uint32(1 + g.r.Intn(9)),
 		Timeout:       time.Unix(1600000000+g.r.Int63n(1<<28), 0).UTC(),
@@ -203,6 +207,9 @@ func (g *gen) dbState(s *crypto.Scheme, st dkg.Status, withFinal bool) *dkg.DBSt
 		o := g.randOpts()
 		o.withKey = true
 		o.id = id
+		if o.n > maxNodes {
+			o.n = 1 + o.n%maxNodes
+		}
 		grp, poly := g.group(s, o)
 		grp.GetGenesisSeed()
 		d.FinalGroup = grp
